@@ -71,7 +71,9 @@ func checkLexSubsetSteps(c *Ctx, p *Prog, rule string) {
 		} else {
 			sm := func(nitems int64) map[string]Summary {
 				return map[string]Summary{
-					"*.List":       func(r *Run, cc *ssa.CallCommon, args []Val) (Val, error) { return VSlice{Name: "CLASSES(" + render(args[0]) + ")", Len: VSym{Name: "NCLASS"}}, nil },
+					"*.List": func(r *Run, cc *ssa.CallCommon, args []Val) (Val, error) {
+						return VSlice{Name: "CLASSES(" + render(args[0]) + ")", Len: VSym{Name: "NCLASS"}}, nil
+					},
 					"*.Next":       callEvent("Next", func(r *Run, args []Val) Val { return VSlice{Name: "NEXT", Len: intConst(nitems)} }),
 					"*.NextDot":    callEvent("NextDot", func(r *Run, args []Val) Val { return VSlice{Name: "NEXTDOT", Len: intConst(nitems)} }),
 					"*.NextImport": callEvent("NextImport", func(r *Run, args []Val) Val { return VSlice{Name: "NEXTIMP", Len: intConst(nitems)} }),
@@ -81,10 +83,10 @@ func checkLexSubsetSteps(c *Ctx, p *Prog, rule string) {
 			}
 			classes := hs[1]
 			for _, wd := range []struct {
-				name         string
-				nitems       int64
-				old, setno   int64
-				want         string
+				name       string
+				nitems     int64
+				old, setno int64
+				want       string
 			}{{"no item moves on the class", 0, -1, 5, "none"}, {"new transition", 2, -1, 5, "store"}, {"transition known and equal", 2, 5, 5, "store"}, {"transition known and different", 2, 4, 5, "panic"}} {
 				reg := &Region{Fn: fn, Start: classes, Cuts: cutSet(hs...), Summaries: sm(wd.nitems), Inline: map[string]bool{},
 					PhiInputs: map[string]Val{"rangeindex": VSym{Name: "c"}, "i": VSym{Name: "i"}},
@@ -120,7 +122,9 @@ func checkLexSubsetSteps(c *Ctx, p *Prog, rule string) {
 				reg := &Region{Fn: fn, Start: hs[2], Cuts: cutSet(hs...), PhiInputs: map[string]Val{"rangeindex": VSym{Name: "m"}},
 					PreWorld: lenWorld(2, map[string]int64{"NCLASS": 0}),
 					Summaries: map[string]Summary{
-						"*.List":       func(r *Run, cc *ssa.CallCommon, args []Val) (Val, error) { return VSlice{Name: "CLASSES", Len: VSym{Name: "NCLASS"}}, nil },
+						"*.List": func(r *Run, cc *ssa.CallCommon, args []Val) (Val, error) {
+							return VSlice{Name: "CLASSES", Len: VSym{Name: "NCLASS"}}, nil
+						},
 						"*.NextDot":    callEvent("NextDot", func(r *Run, args []Val) Val { return VSlice{Name: "NEXTDOT", Len: intConst(n)} }),
 						"*.NextImport": callEvent("NextImport", func(r *Run, args []Val) Val { return VSlice{Name: "NEXTIMP", Len: intConst(0)} }),
 						"*.Add":        callEvent("Add", func(r *Run, args []Val) Val { return VSym{Name: "SETNO"} }),
@@ -139,7 +143,9 @@ func checkLexSubsetSteps(c *Ctx, p *Prog, rule string) {
 			}
 			// the states loop covers every state, including those added meanwhile
 			reg := &Region{Fn: fn, Start: hs[0], Cuts: cutSet(hs...), PhiInputs: map[string]Val{"i": VSym{Name: "i"}},
-				Summaries: map[string]Summary{"*.List": func(r *Run, cc *ssa.CallCommon, args []Val) (Val, error) { return VSlice{Name: "CLASSES", Len: VSym{Name: "NCLASS"}}, nil }}}
+				Summaries: map[string]Summary{"*.List": func(r *Run, cc *ssa.CallCommon, args []Val) (Val, error) {
+					return VSlice{Name: "CLASSES", Len: VSym{Name: "NCLASS"}}, nil
+				}}}
 			for _, wd := range []struct{ i, n int64 }{{3, 4}, {4, 4}} {
 				out := InterpretSafe(reg, &MapWorld{Ints: map[string]int64{"i": wd.i, "len(this.sets)": wd.n, "NCLASS": 0}})
 				ok := (wd.i < wd.n && termOf(out) == "cut") || (wd.i >= wd.n && termOf(out) == "return &this")
@@ -155,7 +161,9 @@ func checkLexSubsetSteps(c *Ctx, p *Prog, rule string) {
 		for _, known := range []bool{true, false} {
 			var apps []string
 			reg := &Region{Fn: fn, Summaries: map[string]Summary{
-				"*.Contain":    func(r *Run, cc *ssa.CallCommon, args []Val) (Val, error) { return VTuple{boolConst(known), VSym{Name: "FOUND"}}, nil },
+				"*.Contain": func(r *Run, cc *ssa.CallCommon, args []Val) (Val, error) {
+					return VTuple{boolConst(known), VSym{Name: "FOUND"}}, nil
+				},
 				"*.Size":       func(r *Run, cc *ssa.CallCommon, args []Val) (Val, error) { return VSym{Name: "SIZE"}, nil },
 				"*.NewItemSet": callEvent("NewItemSet", opq("NEWSET")),
 				"builtin:append": func(r *Run, cc *ssa.CallCommon, args []Val) (Val, error) {
@@ -225,10 +233,14 @@ func checkLexSubsetSteps(c *Ctx, p *Prog, rule string) {
 			for _, reduce := range []bool{true, false} {
 				reg := &Region{Fn: fn, Start: hs[0], Cuts: cutSet(hs[0]), PhiInputs: map[string]Val{"rangeindex": VSym{Name: "k"}}, PreWorld: lenWorld(3, nil),
 					Summaries: map[string]Summary{
-						"*.NewDisjunctRangeSet": func(r *Run, cc *ssa.CallCommon, args []Val) (Val, error) { return VPtr{r.NewObj("DRS", false), ""}, nil },
-						"*.Reduce":              func(r *Run, cc *ssa.CallCommon, args []Val) (Val, error) { return boolConst(reduce), nil },
-						"*.ExpectedSymbol":      func(r *Run, cc *ssa.CallCommon, args []Val) (Val, error) { return VOpq{"EXP(" + render(args[0]) + ")"}, nil },
-						"*.AddLexTNode":         callEvent("AddLexTNode", nil),
+						"*.NewDisjunctRangeSet": func(r *Run, cc *ssa.CallCommon, args []Val) (Val, error) {
+							return VPtr{r.NewObj("DRS", false), ""}, nil
+						},
+						"*.Reduce": func(r *Run, cc *ssa.CallCommon, args []Val) (Val, error) { return boolConst(reduce), nil },
+						"*.ExpectedSymbol": func(r *Run, cc *ssa.CallCommon, args []Val) (Val, error) {
+							return VOpq{"EXP(" + render(args[0]) + ")"}, nil
+						},
+						"*.AddLexTNode": callEvent("AddLexTNode", nil),
 					}}
 				out := InterpretSafe(reg, lenWorld(3, map[string]int64{"k": 0}))
 				ev := evs(out, "AddLexTNode")
@@ -254,11 +266,23 @@ func checkLexSubsetSteps(c *Ctx, p *Prog, rule string) {
 			continue
 		}
 		sm := map[string]Summary{
-			"*.NewItemList":       func(r *Run, cc *ssa.CallCommon, args []Val) (Val, error) { return VOpq{"EMPTY"}, nil },
-			"*." + nx.mv:          func(r *Run, cc *ssa.CallCommon, args []Val) (Val, error) { a := make([]string, len(args)); for i := range args { a[i] = render(args[i]) }; return VOpq{nx.mv + "(" + strings.Join(a, ",") + ")"}, nil },
-			"*.AddNoDuplicate":    func(r *Run, cc *ssa.CallCommon, args []Val) (Val, error) { return VOpq{"(" + render(args[0]) + " + " + render(args[1]) + ")"}, nil },
-			"*.dependentsClosure": func(r *Run, cc *ssa.CallCommon, args []Val) (Val, error) { return VOpq{"deps(" + render(args[0]) + "," + render(args[1]) + ")"}, nil },
-			"*.Closure":           func(r *Run, cc *ssa.CallCommon, args []Val) (Val, error) { return VOpq{"closure(" + render(args[0]) + ")"}, nil },
+			"*.NewItemList": func(r *Run, cc *ssa.CallCommon, args []Val) (Val, error) { return VOpq{"EMPTY"}, nil },
+			"*." + nx.mv: func(r *Run, cc *ssa.CallCommon, args []Val) (Val, error) {
+				a := make([]string, len(args))
+				for i := range args {
+					a[i] = render(args[i])
+				}
+				return VOpq{nx.mv + "(" + strings.Join(a, ",") + ")"}, nil
+			},
+			"*.AddNoDuplicate": func(r *Run, cc *ssa.CallCommon, args []Val) (Val, error) {
+				return VOpq{"(" + render(args[0]) + " + " + render(args[1]) + ")"}, nil
+			},
+			"*.dependentsClosure": func(r *Run, cc *ssa.CallCommon, args []Val) (Val, error) {
+				return VOpq{"deps(" + render(args[0]) + "," + render(args[1]) + ")"}, nil
+			},
+			"*.Closure": func(r *Run, cc *ssa.CallCommon, args []Val) (Val, error) {
+				return VOpq{"closure(" + render(args[0]) + ")"}, nil
+			},
 		}
 		reg := &Region{Fn: fn, Start: hs[0], Cuts: cutSet(hs[0]), Summaries: sm, PreWorld: lenWorld(3, nil),
 			PhiInputs: map[string]Val{"rangeindex": VSym{Name: "k"}, "nextItems": VOpq{"ACC"}}}
@@ -278,7 +302,10 @@ func checkLexSubsetSteps(c *Ctx, p *Prog, rule string) {
 				var apps []string
 				reg := &Region{Fn: fn, Start: hs[0], Cuts: cutSet(hs[0]), PreWorld: lenWorld(3, nil), PhiInputs: map[string]Val{"rangeindex": VSym{Name: "k"}, "newList": VOpq{"ACC"}},
 					Summaries: map[string]Summary{
-						"*.Contain": func(r *Run, cc *ssa.CallCommon, args []Val) (Val, error) { r.Event("Contain(%s,%s)", render(args[0]), render(args[1])); return boolConst(has), nil },
+						"*.Contain": func(r *Run, cc *ssa.CallCommon, args []Val) (Val, error) {
+							r.Event("Contain(%s,%s)", render(args[0]), render(args[1]))
+							return boolConst(has), nil
+						},
 						"builtin:append": func(r *Run, cc *ssa.CallCommon, args []Val) (Val, error) {
 							apps = append(apps, render(args[0])+" ++ ["+strings.Join(r.VarargElems(args[1]), ",")+"]")
 							return VOpq{"ACC2"}, nil
@@ -379,15 +406,21 @@ func checkLexListClosure(c *Ctx, p *Prog, rule string) {
 			"invoke:String":  func(r *Run, cc *ssa.CallCommon, args []Val) (Val, error) { return VOpq{"ID"}, nil },
 			"*.ContainShift": func(r *Run, cc *ssa.CallCommon, args []Val) (Val, error) { return boolConst(wd.inProgress), nil },
 			"*.IsImport":     func(r *Run, cc *ssa.CallCommon, args []Val) (Val, error) { return boolConst(wd.imported), nil },
-			"*.NewItem":      func(r *Run, cc *ssa.CallCommon, args []Val) (Val, error) { return VOpq{"NewItem(" + render(args[0]) + ")"}, nil },
+			"*.NewItem": func(r *Run, cc *ssa.CallCommon, args []Val) (Val, error) {
+				return VOpq{"NewItem(" + render(args[0]) + ")"}, nil
+			},
 			"*.Emoves": func(r *Run, cc *ssa.CallCommon, args []Val) (Val, error) {
 				return VSlice{Name: "Emoves(" + render(args[0]) + ")", Len: intConst(2)}, nil
 			},
 			"*.Reduce": func(r *Run, cc *ssa.CallCommon, args []Val) (Val, error) {
 				return boolConst(wd.nullable && strings.Contains(render(args[0]), "[0]")), nil
 			},
-			"*.MoveRegDefId":   func(r *Run, cc *ssa.CallCommon, args []Val) (Val, error) { return VOpq{"MoveRegDefId(" + render(args[0]) + "," + render(args[1]) + ")"}, nil },
-			"*.AddNoDuplicate": func(r *Run, cc *ssa.CallCommon, args []Val) (Val, error) { return VOpq{"(" + render(args[0]) + " + " + render(args[1]) + ")"}, nil },
+			"*.MoveRegDefId": func(r *Run, cc *ssa.CallCommon, args []Val) (Val, error) {
+				return VOpq{"MoveRegDefId(" + render(args[0]) + "," + render(args[1]) + ")"}, nil
+			},
+			"*.AddNoDuplicate": func(r *Run, cc *ssa.CallCommon, args []Val) (Val, error) {
+				return VOpq{"(" + render(args[0]) + " + " + render(args[1]) + ")"}, nil
+			},
 		}
 		reg := &Region{Fn: fn, Start: head, Cuts: cutSet(hs...), Summaries: sm, PhiInputs: map[string]Val{"closure": VOpq{"ACC"}, "i": VSym{Name: "i"}},
 			Lazy: func(o *Obj, path string, t types.Type) Val {
@@ -481,7 +514,10 @@ func checkLexDependents(c *Ctx, p *Prog, rule string) {
 func checkLexEmoves(c *Ctx, p *Prog, rule string) {
 	posOps := func(level int64) map[string]Summary {
 		return map[string]Summary{
-			"*.Clone":      func(r *Run, cc *ssa.CallCommon, args []Val) (Val, error) { r.Event("clone"); return VPtr{r.NewObj("POST", false), ""}, nil },
+			"*.Clone": func(r *Run, cc *ssa.CallCommon, args []Val) (Val, error) {
+				r.Event("clone")
+				return VPtr{r.NewObj("POST", false), ""}, nil
+			},
 			"*.pop":        callEvent("pop", func(r *Run, args []Val) Val { return VTuple{VOpq{"popped"}, VSym{Name: "poppedpos"}} }),
 			"*.inc":        callEvent("inc", nil),
 			"*.push":       callEvent("push", nil),
@@ -489,8 +525,10 @@ func checkLexEmoves(c *Ctx, p *Prog, rule string) {
 			"*.setToEnd":   callEvent("setToEnd", nil),
 			"*.getHashKey": callEvent("hash", nil),
 			"*.level":      func(r *Run, cc *ssa.CallCommon, args []Val) (Val, error) { return intConst(level), nil },
-			"*.Len":        func(r *Run, cc *ssa.CallCommon, args []Val) (Val, error) { return VSym{Name: "LEN(" + render(args[0]) + ")"}, nil },
-			"invoke:Len":   func(r *Run, cc *ssa.CallCommon, args []Val) (Val, error) { return VSym{Name: "LEN"}, nil },
+			"*.Len": func(r *Run, cc *ssa.CallCommon, args []Val) (Val, error) {
+				return VSym{Name: "LEN(" + render(args[0]) + ")"}, nil
+			},
+			"invoke:Len": func(r *Run, cc *ssa.CallCommon, args []Val) (Val, error) { return VSym{Name: "LEN"}, nil },
 			"*.newLexPatternBasicItems": func(r *Run, cc *ssa.CallCommon, args []Val) (Val, error) {
 				return VOpq{"basic(" + render(args[1]) + "," + render(args[2]) + ")"}, nil
 			},
@@ -601,7 +639,9 @@ func checkLexEmoves(c *Ctx, p *Prog, rule string) {
 		for _, match := range []bool{true, false} {
 			sm := posOps(1)
 			sm["*.match"] = func(r *Run, cc *ssa.CallCommon, args []Val) (Val, error) { return boolConst(match), nil }
-			sm["*.Emoves"] = func(r *Run, cc *ssa.CallCommon, args []Val) (Val, error) { return VOpq{"Emoves(" + render(args[0]) + ")"}, nil }
+			sm["*.Emoves"] = func(r *Run, cc *ssa.CallCommon, args []Val) (Val, error) {
+				return VOpq{"Emoves(" + render(args[0]) + ")"}, nil
+			}
 			out := InterpretSafe(&Region{Fn: fn, Summaries: sm}, &MapWorld{})
 			got := evs(out) + "|" + termOf(out)
 			want := "|return nil"
@@ -680,15 +720,33 @@ func checkLexEmoves(c *Ctx, p *Prog, rule string) {
 					return VOpq{"(" + render(args[0]) + " ++ [" + strings.Join(r.VarargElems(args[1]), ",") + "])"}, nil
 				},
 			}
-			reg := &Region{Fn: fn, Start: hs[0], Cuts: cutSet(hs[0]), Summaries: sm, PhiInputs: map[string]Val{"items": VOpq{"RES"}},
-				// the item of this round was not processed before (R09.8 decides the other case)
-				LookupVal: func(r *Run, m, k Val, t types.Type) (Val, Val) { return boolConst(false), boolConst(false) }}
-			pushes = nil
-			out := InterpretSafe(reg, &MapWorld{Ints: map[string]int64{"NSTACK": 2}})
-			got := strings.Join(pushes, "; ")
-			// the prologue's initial push is not part of the round
-			ok := termOf(out) == "cut" && out.NextPhi["items"] == wd.wantRes && strings.TrimPrefix(got, "Push([*items.Item(&this)]); ") == wd.wantPush || (termOf(out) == "cut" && out.NextPhi["items"] == wd.wantRes && got == "Push([*items.Item(&this)])" && wd.wantPush == "")
-			stepOb(c, out, rule, "lexer Item.Emoves round: "+wd.name, ok, fmt.Sprintf("%s pushes=[%s] results=%s %s; required push [%s], results %s", termOf(out), got, out.NextPhi["items"], out.Undecided, wd.wantPush, wd.wantRes), p.FnPos(fn))
+			for _, other := range []bool{false, true} {
+				reg := &Region{Fn: fn, Start: hs[0], Cuts: cutSet(hs[0]), Summaries: sm, PhiInputs: map[string]Val{"items": VOpq{"RES"}},
+					LookupVal: func(r *Run, m, k Val, t types.Type) (Val, Val) {
+						if ks := render(k); strings.Contains(ks, "IT") && strings.Contains(strings.ToLower(ks), "key") {
+							// the item of this round was not processed before (R09.8 decides the other case)
+							return boolConst(false), boolConst(false)
+						}
+						// any other memo the code keeps may answer either way: the round must be right in both
+						if b, ok := t.Underlying().(*types.Basic); ok && b.Kind() == types.Bool {
+							return boolConst(other), boolConst(other)
+						}
+						return VOpq{"memo"}, boolConst(other)
+					}}
+				pushes = nil
+				out := InterpretSafe(reg, &MapWorld{Ints: map[string]int64{"NSTACK": 2}})
+				got := strings.Join(pushes, "; ")
+				// the prologue's initial push is not part of the round
+				ok := termOf(out) == "cut" && out.NextPhi["items"] == wd.wantRes && strings.TrimPrefix(got, "Push([*items.Item(&this)]); ") == wd.wantPush || (termOf(out) == "cut" && out.NextPhi["items"] == wd.wantRes && got == "Push([*items.Item(&this)])" && wd.wantPush == "")
+				name := "lexer Item.Emoves round: " + wd.name
+				if other {
+					if len(out.Asked) == 0 && ok {
+						continue // no other memo was consulted: same run as before
+					}
+					name += " (any other memo answering yes)"
+				}
+				stepOb(c, out, rule, name, ok, fmt.Sprintf("%s pushes=[%s] results=%s %s; required push [%s], results %s", termOf(out), got, out.NextPhi["items"], out.Undecided, wd.wantPush, wd.wantRes), p.FnPos(fn))
+			}
 		}
 		out := InterpretSafe(&Region{Fn: fn, Start: hs[0], Cuts: cutSet(hs[0]), PhiInputs: map[string]Val{"items": VOpq{"RES"}},
 			LookupVal: func(r *Run, m, k Val, t types.Type) (Val, Val) { return boolConst(false), boolConst(false) },
@@ -728,7 +786,9 @@ func checkEmovesTerminates(c *Ctx, p *Prog, rule string) {
 			"*.Pop": func(r *Run, cc *ssa.CallCommon, args []Val) (Val, error) {
 				return VIface{Dyn: itemT, V: VPtr{r.NewObj("IT", false), ""}}, nil
 			},
-			"*.HashKey":        func(r *Run, cc *ssa.CallCommon, args []Val) (Val, error) { return VOpq{"key(" + render(args[0]) + ")"}, nil },
+			"*.HashKey": func(r *Run, cc *ssa.CallCommon, args []Val) (Val, error) {
+				return VOpq{"key(" + render(args[0]) + ")"}, nil
+			},
 			"*.Reduce":         func(r *Run, cc *ssa.CallCommon, args []Val) (Val, error) { return boolConst(false), nil },
 			"*.nextIsTerminal": func(r *Run, cc *ssa.CallCommon, args []Val) (Val, error) { return boolConst(false), nil },
 			"*.top": func(r *Run, cc *ssa.CallCommon, args []Val) (Val, error) {
